@@ -131,8 +131,10 @@ def check_trace(ctx, log, us, h, gt):
     for a, k, r in choices:
         arr = [str(x) for x in (a[0] if a else k.get("a"))]
         p = k.get("p")
-        if arr != h["categories"] or (p is None) != (h["weights"] is None) or \
-                (p is not None and [float(x) for x in p] != h["weights"]):
+        # compared as a mapping category -> weight: the order in which the arrays are held is not part of the law
+        want = dict(zip(h["categories"], h["weights"] or [None] * len(h["categories"])))
+        got = dict(zip(arr, [float(x) for x in p] if p is not None else [None] * len(arr)))
+        if got != want or len(arr) != len(h["categories"]):
             ctx.fail("category-draw-with-foreign-categories-or-weights", {"a": arr[:8], "p": None if p is None else list(map(float, p))[:8],
                                                                           "held": [h["categories"][:8], h["weights"]]}, monitor="M-TRACE")
             return
@@ -317,6 +319,12 @@ def check_case(ctx, case):
     h = held(sampler)
     if case["init"] == "reference":
         check_measure(ctx, h, case["continuum"])
+    else:
+        # custom initialisation is judged against the parameters that were SUPPLIED, not against what the sampler holds
+        p = case["params"]
+        h = {"n": (float(p["avg_n"]), float(p["std_n"])), "gap": (float(p["avg_gap"]), float(p["std_gap"])),
+             "dur": (float(p["avg_dur"]), float(p["std_dur"])), "categories": [str(c) for c in p["categories"]],
+             "weights": None if p["weights"] is None else [float(w) for w in p["weights"]]}
     allowed = set(cats)
     before = None if continuum is None else monitors.snapshot_continuum(continuum)
     np.random.seed(case["np_seed"])
